@@ -110,6 +110,26 @@ package tree
 //@   loop 1
 //@     invariant [none_so_far] forall k int :: {edges[k]} 0 <= k && k <= rangeindex ==> !((len(e.right.neigh) == 1) == (len(edges[k].right.neigh) == 1) && ehashof(e) == ehashof(edges[k]) && eqorcompl(e.bitset, edges[k].bitset))
 
+// CommonEdges (property C08): every branch of the first list that is considered (all of them, or only those whose
+// lower end is not a tip) is looked up in the second list; it is counted as common exactly when a branch of the same
+// kind with the same split is found there, otherwise as specific to the first tree
+//@ func tree.CommonEdges
+//@   flag noframe
+//@   requires forall k int :: {edges1[k]} 0 <= k && k < len(edges1) ==> edges1[k] != nil && edges1[k].right != nil
+//@   requires forall k int :: {edges2[k]} 0 <= k && k < len(edges2) ==> edges2[k] != nil && edges2[k].right != nil
+//@   call (*tree.Edge).FindEdge [a_considered_branch_is_looked_up_in_the_other_list] a0 == e && a1 == edges2 && (tipEdges || len(e.right.neigh) != 1)
+//@   ensures [counts_are_non_negative_and_add_up_to_the_considered_branches] result2 == nil ==> result0 >= 0 && result1 >= 0 && result0 + result1 <= len(edges1)
+//@   loop 1
+//@     invariant [common_never_exceeds_considered] 0 <= common && common <= tree1 && tree1 <= rangeindex + 1
+//@     step [a_considered_branch_counts_once_and_as_common_exactly_when_found] next(tree1) == tree1 + ((tipEdges || len(e.right.neigh) != 1) ? 1 : 0) && next(common) == common + (((tipEdges || len(e.right.neigh) != 1) && e2 != nil) ? 1 : 0)
+
+//@ func (*tree.Tree).CommonEdges
+//@   flag noframe
+//@   requires t != nil && t2 != nil
+//@   call (*tree.Tree).CompareTipIndexes [taxon_sets_are_compared_first] a0 == t && a1 == t2
+//@   call tree.CommonEdges [all_branches_of_both_trees_with_the_same_tip_option] a2 == tipEdges && err == nil
+//@   ensures [a_taxon_mismatch_is_an_error] result2 == nil ==> len(t.tipIndex) == len(t2.tipIndex) && len(t.tipIndex) != 0
+
 // ---------------------------------------------------------------------------
 // Enumerations used by callers in other packages (thin contracts)
 // ---------------------------------------------------------------------------
